@@ -274,7 +274,8 @@ class Memoize(Interpretation):
         return self.base_interpretation.is_total
 
     def interpret(self, cls, *args):
-        key = self.make_hash_key(cls, *args)
+        # one cache serves all term classes: the class is part of the key
+        key = (cls, self.make_hash_key(cls, *args))
         value = self.cache.get(key)
         if value is None:
             self.cache[key] = value = self.base_interpretation.interpret(cls, *args)
